@@ -1,4 +1,5 @@
 import SoxrModel.Cr.Stream
+import SoxrModel.Properties.C03
 /-!
 # C15 `soxr_delay` reports exactly the output still owed for the input accepted
 
@@ -114,6 +115,30 @@ theorem delay_zero_drained (e : Eng) (p q : Nat) (hsin : e.sin = 0) (hd : Draini
 theorem delay_gt_neg_one (e : Eng) (p q N D : Nat) (hsin : e.sin = N) (hsout : e.sout = D)
     (hearly : (D : Int) * p < (N : Int) * q + p) : -(p : Int) < delayNum e p q := by
   unfold delayNum; rw [hsin, hsout]; omega
+
+/-- **Never below −1, for every run** (no never-early hypothesis): for a plan whose rate product is `p/q`
+    (`= irate/orate` for a rational plan) and whose decidable hypotheses hold (C03 `never_early`), at every point of
+    every streaming run the delay numerator `accepted·q − delivered·p` exceeds `−p`, i.e. `soxr_delay() > −1`. -/
+theorem delay_gt_neg_one_every_run {α : Type} (K : Kern α) (z : α) (owed : Nat → Nat) (lp : List LStage)
+    (hwf : ∀ x ∈ lp, StageWF x.cfg x.s0) (he : PlanEarlyOK lp) (hlat : PlanLatOK false lp) (p q : Nat) (hp : 0 < p) (hq : 0 < q)
+    (hrate : rateOf (lp.map tstage) = (p : ℚ) / q) (ops : List (DOp α)) (F D : List α) (e : DEng α)
+    (r : DRuns K z owed (DEng.fresh z (lp.map LStage.toPlan)) ops F D e) (hfl : e.fl = false) :
+    -(p : Int) < (F.length : Int) * q - (D.length : Int) * p := by
+  rcases Nat.eq_zero_or_pos D.length with h0 | h1
+  · rw [h0]
+    have : (0 : Int) ≤ (F.length : Int) * q := by positivity
+    have hp' : (0 : Int) < p := by exact_mod_cast hp
+    simp only [Int.ofNat_zero, Int.zero_mul, Int.sub_zero]; omega
+  · have h := (Soxr.Properties.C03.never_early K z owed lp hwf he hlat ops F D e r hfl).1 h1
+    rw [hrate] at h
+    have hqq : (0 : ℚ) < q := by exact_mod_cast hq
+    have h2 : ((D.length : ℚ) - 1) * p < (F.length : ℚ) * q := by
+      have := mul_lt_mul_of_pos_right h hqq
+      have e1 : ((D.length : ℚ) - 1) * ((p : ℚ) / q) * q = ((D.length : ℚ) - 1) * p := by field_simp
+      rw [e1] at this; exact this
+    have h3 : ((D.length : ℚ)) * p < (F.length : ℚ) * q + p := by linarith
+    have h4 : (D.length : Int) * p < (F.length : Int) * q + p := by exact_mod_cast h3
+    omega
 
 example : roundDiv 7 2 = 4 ∧ roundDiv 5 2 = 3 ∧ roundDiv (-1) 2 = 0 := by decide
 
